@@ -17,7 +17,7 @@ def run(tier, seed):
                            "barrier_releases_exact_group, one_leader_per_generation, barrier_reuse_generations, exactly_one_initializer, call_once_returns_after_completion, "
                            "token_is_boolean, park_consumes_or_blocks, unpark_unblocks_or_sets_token, park_invariant — all histories; "
                            "F10 (thread::scope's unconditional unblock invents a wake-up for a task blocked in recv/wait/join) is a known finding, witnessed under corpus/C07",
-                           profiles=["condvar", "condvar_dl", "barrier", "once", "kernel", "stdmix", "scope"], per_quick=80,
+                           profiles=["cv_shape", "park", "park_mix", "condvar", "condvar_dl", "barrier", "once", "kernel", "stdmix", "scope"], per_quick=150,
                            lemma_prefixes=("Condvar", "Barrier", "Once", "Park"))
 
 
